@@ -1,6 +1,7 @@
 package main
 
 import (
+	"strconv"
 	"fmt"
 	"go/constant"
 	"go/types"
@@ -189,7 +190,11 @@ func (u *Unit) formatText(format string, args []*Term) (*Term, bool) {
 		case "q":
 			u.specFun("quote", []string{SStr}, SStr)
 			u.specFun("fmtQ", []string{"Any"}, SStr)
-			out = Concat(out, Ite(enc.Is("A_string", a), App("quote", SStr, enc.Sel("A_string_v", a)), App("fmtQ", SStr, a)))
+			if a.Op == "A_string" && len(a.Args) == 1 && a.Args[0].Op == "#str" {
+				out = Concat(out, quoteTerm(a.Args[0])) // %q of a constant string: strconv.Quote evaluated now
+			} else {
+				out = Concat(out, Ite(enc.Is("A_string", a), App("quote", SStr, enc.Sel("A_string_v", a)), App("fmtQ", SStr, a)))
+			}
 		case "#v":
 			u.specFun("goSyntax", []string{"Any"}, SStr)
 			out = Concat(out, App("goSyntax", SStr, a))
@@ -307,7 +312,7 @@ func (u *Unit) execExtern(p *Path, x *ssa.Call, name string, args []*Term) {
 		set1(App("toLower", SStr, args[0]))
 	case "strconv.Quote":
 		u.specFun("quote", []string{SStr}, SStr)
-		set1(App("quote", SStr, args[0]))
+		set1(quoteTerm(args[0]))
 	case "strconv.QuoteRune":
 		u.specFun("quoteRune", []string{SInt}, SStr)
 		set1(App("quoteRune", SStr, args[0]))
@@ -415,4 +420,13 @@ func isASCII(s string) bool {
 		}
 	}
 	return true
+}
+
+// quoteTerm is strconv.Quote of a string term: evaluated when the argument is a literal, the
+// uninterpreted function quote (axioms in the prelude) otherwise.
+func quoteTerm(t *Term) *Term {
+	if t.Op == "#str" {
+		return StrLit(strconv.Quote(t.Lit))
+	}
+	return App("quote", SStr, t)
 }
